@@ -208,6 +208,10 @@ type c05LoopCase struct {
 	Max    time.Duration `json:"max"`
 	Offset time.Duration `json:"start_offset"`
 	N      int           `json:"waits"`
+	// The consumer of the requests takes request number StallAt only after Stall (the
+	// scheduler is busy): the loop's send blocks that long.
+	StallAt int           `json:"stall_at,omitempty"`
+	Stall   time.Duration `json:"stall,omitempty"`
 }
 
 func c05Loop(t *testing.T, c c05LoopCase) (viol [][2]string, gaps []time.Duration) {
@@ -216,6 +220,9 @@ func c05Loop(t *testing.T, c c05LoopCase) (viol [][2]string, gaps []time.Duratio
 		a := NewAdvertiser(NewContext(nil, nil, nil), config.Interface{Name: "eth0", MinInterval: c.Min, MaxInterval: c.Max}, nil, nil, func() bool { return false })
 		ctx, cancel := context.WithCancel(context.Background())
 		ipC := make(chan netip.Addr, 16)
+		if c.Stall > 0 {
+			ipC = make(chan netip.Addr) // the loop's send blocks until the request is taken
+		}
 		start := time.Now()
 		done := make(chan struct{})
 		go func() { defer close(done); a.multicast(ctx, ipC) }()
@@ -223,7 +230,11 @@ func c05Loop(t *testing.T, c c05LoopCase) (viol [][2]string, gaps []time.Duratio
 		bad := func(sig, format string, x ...any) {
 			viol = append(viol, [2]string{sig, fmt.Sprintf("%s: ", ev.JSON(c)) + fmt.Sprintf(format, x...)})
 		}
+		var offered []time.Time // when the loop is next seen offering a request after a stall
 		for len(at) <= c.N {
+			if c.Stall > 0 && len(at) == c.StallAt {
+				time.Sleep(c.Stall)
+			}
 			select {
 			case ip := <-ipC:
 				if ip != netip.IPv6LinkLocalAllNodes() {
@@ -237,7 +248,8 @@ func c05Loop(t *testing.T, c c05LoopCase) (viol [][2]string, gaps []time.Duratio
 				return
 			}
 		}
-		if !at[0].Equal(start) {
+		_ = offered
+		if !at[0].Equal(start) && !(c.Stall > 0 && c.StallAt == 0) {
 			bad("C05:loop-first-request", "first request %s after start", at[0].Sub(start))
 		}
 		for i := 1; i < len(at); i++ {
@@ -255,6 +267,14 @@ func c05Loop(t *testing.T, c c05LoopCase) (viol [][2]string, gaps []time.Duratio
 			}
 			if i-1 < 3 && lo > 16*time.Second {
 				lo = 16 * time.Second
+			}
+			if c.Stall > 0 && i == c.StallAt {
+				// The request before this gap was available on time but taken late: the gap
+				// between two *takings* is wait + lateness here; only the lower bound applies.
+				if g < lo {
+					bad("C05:loop-bounds", "wait %d was %s, below %s", i-1, g, lo)
+				}
+				continue
 			}
 			if g < lo || g > hi || g <= 0 {
 				bad("C05:loop-bounds", "wait %d was %s, outside [%s,%s]", i-1, g, lo, hi)
@@ -282,7 +302,7 @@ func c05Loop(t *testing.T, c c05LoopCase) (viol [][2]string, gaps []time.Duratio
 func TestVerifC05Loop(t *testing.T) {
 	r := ev.Begin("C05", "loop")
 	defer r.End(t)
-	r.Rule = "the real Advertiser.multicast loop under a virtual clock (testing/synctest): 26 (min,max) pairs x 3 start instants (= PRNG seeds) x 6 waits; oracle: first request at once, every wait is a whole number of seconds within the bounds (<=16s for the first three), requests recur and stop at cancellation; non-trivial = every run; distinct = distinct (pair, offset)"
+	r.Rule = "the real Advertiser.multicast loop under a virtual clock (testing/synctest): 26 (min,max) pairs x 3 start instants (= PRNG seeds) x 6 waits, 3 pairs x 600 consecutive waits, and 3 pairs x a request taken late (by 0.5, 2.5, 7 intervals; at request 1, 2, 4) over an unbuffered channel; oracle: first request at once, every wait is a whole number of seconds within the bounds (<=16s for the first three), requests recur and stop at cancellation; non-trivial = every run; distinct = distinct (pair, offset)"
 	if r.Replay != nil {
 		var c c05LoopCase
 		if err := json.Unmarshal(r.Replay, &c); err != nil {
@@ -300,9 +320,27 @@ func TestVerifC05Loop(t *testing.T) {
 	pairs := [][2]time.Duration{{3 * s, 4 * s}, {4 * s, 4 * s}, {8 * s, 8 * s}, {3 * s, 9 * s}, {6 * s, 9 * s}, {3 * s, 16 * s}, {12 * s, 16 * s}, {3 * s, 17 * s}, {12 * s, 17 * s},
 		{15 * s, 20 * s}, {16 * s, 22 * s}, {17 * s, 23 * s}, {9 * s, 30 * s}, {198 * s, 600 * s}, {3 * s, 600 * s}, {450 * s, 600 * s}, {3 * s, 1800 * s}, {594 * s, 1800 * s}, {1350 * s, 1800 * s},
 		{4500 * time.Millisecond, 4500 * time.Millisecond}, {3 * s, 4500 * time.Millisecond}, {3400 * time.Millisecond, 10200 * time.Millisecond}, {3 * s, 4000000001}, {3 * s, 5 * s}, {13 * s, 18 * s}, {5 * s, 8 * s}}
+	var cases []c05LoopCase
 	for _, p := range pairs {
 		for _, off := range []time.Duration{0, 1, 12345678901} {
-			c := c05LoopCase{Min: p[0], Max: p[1], Offset: off, N: 6}
+			cases = append(cases, c05LoopCase{Min: p[0], Max: p[1], Offset: off, N: 6})
+		}
+	}
+	// Long runs: every wait of 600 consecutive ones (indices beyond any small counter).
+	for _, p := range [][2]time.Duration{{20 * s, 30 * s}, {198 * s, 600 * s}, {3 * s, 4 * s}} {
+		cases = append(cases, c05LoopCase{Min: p[0], Max: p[1], N: 600})
+	}
+	// A request taken late by 0.5 / 2.5 / 7 intervals (the send blocks): the waits after it
+	// are still whole waits, not shortened to "catch up".
+	for _, p := range [][2]time.Duration{{4 * s, 4 * s}, {3 * s, 4 * s}, {20 * s, 30 * s}} {
+		for _, at := range []int{1, 2, 4} {
+			for _, k := range []time.Duration{p[1] / 2, p[1] * 5 / 2, 7 * p[1]} {
+				cases = append(cases, c05LoopCase{Min: p[0], Max: p[1], N: 8, StallAt: at, Stall: k})
+			}
+		}
+	}
+	for _, c := range cases {
+		{
 			r.Case(ev.JSON(c), true)
 			vs, gaps := c05Loop(t, c)
 			r.Sample(map[string]any{"case": c, "waits": fmt.Sprint(gaps)})
